@@ -139,12 +139,20 @@ func cmdCheck(args []string) int {
 	os.RemoveAll(outDir)
 	os.MkdirAll(outDir, 0o755)
 
+	hintDir := filepath.Join(outDir, "hints")
+	os.MkdirAll(hintDir, 0o755)
+	hintsTried, hintsFailed := 0, 0
+	HintSolver = func(obls []*Obligation) {
+		(&Solver{Dir: hintDir, Timeout: 10, Par: runtime.NumCPU(), Prelude: e.Prelude(), QFPrelude: e.QFPrelude(), Eng: e}).SolveAll(obls)
+	}
 	var all []*Obligation
 	var fnEv []fnEvidence
 	var unsupported []string
 	byFunc := map[string][]*Obligation{}
 	for _, k := range keys {
 		res := e.VerifyFunc(k)
+		hintsTried += res.HintsTried
+		hintsFailed += res.HintsFailed
 		for _, u := range res.Unsupported {
 			unsupported = append(unsupported, k+": "+u)
 		}
@@ -309,6 +317,7 @@ func cmdCheck(args []string) int {
 			"samples":                  samples,
 			"vacuity":                  map[string]int{"cover_queries": nCover, "satisfiable": nCovered},
 			"solver_timeout_s":         timeout,
+			"proof_hints":              map[string]int{"tried": hintsTried, "not_proved_hence_not_assumed": hintsFailed},
 			"notes":                    append(e.Notes, gnotes...),
 			"explanation":              "obligations generated by govc from the typed AST of /repo on this run (contracts: //@ files under build tag verif), discharged by the SMT portfolio; 'discharged' counts obligations proved unsat-of-negation; obligations that fail only at a recorded known finding are counted under known_finding_obligations",
 		},
